@@ -228,9 +228,13 @@ func (em *emitter) emitPackage(pkg *ast.Package, extendingFile bool, path string
 				vars[v.Name] = index
 			}
 			em.assignValuesToAddresses(addresses, n.Rhs)
-			for name, reg := range pkgVarRegs {
-				index := vars[name]
-				em.fb.emitSetVar(false, reg, int(index), pkgVarTypes[name].Kind())
+			for _, v := range n.Lhs {
+				reg, ok := pkgVarRegs[v.Name]
+				if !ok {
+					continue
+				}
+				index := vars[v.Name]
+				em.fb.emitSetVar(false, reg, int(index), pkgVarTypes[v.Name].Kind())
 			}
 			em.fb = backupFb
 		}
